@@ -162,6 +162,26 @@ def cov_diag(W, rng, d, dt, mode):
     return dict(op="diag", dom=d, v=[gj(v) for v in full], dt=dt, d=d, t=d, py=dict(spaces=spaces, vals=[gj(v) for v in vals]))
 
 
+def ok_bun(W, bun):
+    """a bun must denote a matrix (no inverse of a non-invertible operator) and contain no zero scaling / diagonal entry
+    (dividing by those is documented as the caller's responsibility)"""
+    try:
+        OW.naive_matrix(W, bun)
+    except X.Singular:
+        return False
+    for n in c01.walk(bun):
+        if n["d"] == n["t"] and n["op"] not in ("null",):
+            try:
+                X.minv(OW.naive_matrix(W, n))      # merged diagonals must not acquire zero entries either
+            except X.Singular:
+                return False
+        if n["op"] == "scaling" and X.g(n["c"]) == X.ZERO:
+            return False
+        if n["op"] == "diag" and any(X.g(v) == X.ZERO for v in n["v"]):
+            return False
+    return True
+
+
 def cov(W, rng, d, dt, depth, mode="ok"):
     """a script for a covariance-like operator on domain d with sampling dtype code dt"""
     if d in W.multi:
@@ -186,7 +206,13 @@ def cov(W, rng, d, dt, depth, mode="ok"):
     if k == "sandwich":
         mids = [m for m in range(len(W.sizes)) if W.connected(d, m)]
         m = rng.choice(mids)
-        bun = c01.gen(W, rng, d, m, rng.choice([0, 0, 1]))
+        for _ in range(20):
+            bun = c01.gen(W, rng, d, m, rng.choice([0, 0, 1]))
+            if ok_bun(W, bun):
+                break
+        else:
+            bun = dict(op="scaling", dom=d, c=gj((2, 0)), dt=0, d=d, t=d)
+            m = d
         cheese = None if rng.random() < 0.2 else cov(W, rng, m, dt, depth - 1, sub_mode)
         return dict(op="sandwich", bun=bun, cheese=cheese, dt=dtx, d=d, t=d)
     if k in ("add", "sub"):
@@ -228,6 +254,9 @@ def exact_cov(W, case):
             m = X.madd(OW.naive_matrix(W, case["se"]["lik"]), OW.naive_matrix(W, case["se"]["prior"]))
         else:
             m = OW.naive_matrix(W, case["script"])
+    except X.Singular:
+        return "vacuous"      # the expression itself denotes no matrix (it inverts a singular operator)
+    try:
         return X.minv(m) if case["fi"] else m
     except X.Singular:
         return None
@@ -264,6 +293,8 @@ def oracle(case):
                     dict(kind="refuses-representable", error=real["error"], top=case["script"]["op"]))
         return None   # refusing is always safe
     A, mean = real["A"], real["mean"]
+    if isinstance(exact_cov(W, case), str):
+        return None
     if not np.all(np.isfinite(A)) or not np.all(np.isfinite(mean)):
         return ("sampler returns non-finite values instead of refusing", dict(kind="nonfinite", fi=case["fi"]))
     if np.max(np.abs(mean), initial=0.0) > tol:
@@ -273,6 +304,8 @@ def oracle(case):
         return None   # mixed sampling dtypes: no single covariance convention applies
     kappa = 2.0 if kinds == {2} else 1.0
     C = exact_cov(W, case)
+    if isinstance(C, str):
+        return None
     if C is None:
         return ("sampler draws from an operator whose (inverse) covariance does not exist", dict(kind="no-covariance", fi=case["fi"]))
     Cn = X.mnumpy(C, len(mean), len(mean))
